@@ -1261,6 +1261,75 @@ def _mesh_life(chk: Check):
     chk.sample({"binding": "B1 mesh life cycle", "history": [p["act"] for p in g.path_to(e["_s"])] + [e["act"]], "expected": e["obs"]})
 
 
+
+# ----------------------------------------------------------------------------------------
+# Mesh vertex weights (AssetLayout.tla WeightsBytes/ParseWeights, AssetLayout_Weights): B3 table
+# ----------------------------------------------------------------------------------------
+
+def _mesh_weights(chk: Check):
+    """Every sequence of <= 4 vertices with 0/1/3/4 influences each (low and high joint indices, raw weights whose bytes
+    look like terminators): bytes computed by TLC; the real serialiser must write them, the real parser must read the
+    model back from them, and the whole mesh must carry them through LLMeshSerializer."""
+    import hippolyzer.lib.base.serialization as se
+    from hippolyzer.lib.base.mesh import LLMeshSerializer
+    cfg = os.path.join(chk.scratch, "weights.cfg")
+    with open(cfg, "w") as f:
+        f.write('SPECIFICATION WSpec\nCONSTANTS Segs = {"x"} MaxEdits = 0 PreferRaw = FALSE Counts = {0,1,3,4} MaxVerts = 4\n'
+                "INVARIANT RoundTrip\nINVARIANT Length\n")
+    res = common.run_tlc(os.path.join(common.SPECS, "AssetLayout_Weights.tla"), cfg, workers=1, scratch=chk.scratch)
+    chk.require_model_ok(res, "AssetLayout_Weights (format laws + table)")
+    if not res.ok:
+        return
+    rows = [r for r in res.printed() if isinstance(r, dict) and r.get("row") == "weights"]
+    if len(rows) != 680:
+        raise MachineryError("weights table has %d rows" % len(rows))
+    templ = LLMeshSerializer.SEGMENT_TEMPLATES.get("high_lod")
+    if templ is None or not hasattr(templ, "serialize") or not hasattr(templ, "deserialize"):
+        raise MachineryError("LLMeshSerializer.SEGMENT_TEMPLATES['high_lod'] is gone: adapt the weights bridge")
+
+    def norm(ws):
+        return [[(int(w[0]), float(w[1])) for w in v] for v in ws]
+    agg = _Agg()
+    for r in rows:
+        chk.count()
+        model = [[(j, w16 / 0xFFff) for j, w16 in v] for v in r["verts"]]
+        want = bytes(r["bytes"])
+        shape = {"counts": r["counts"], "high_joints": r["hi"]}
+
+        def fail(clause, **d):
+            d.update(shape)
+            agg.add(("mesh weights", clause), len(r["counts"]) * 10 + sum(r["counts"]),
+                    {"kind": "b3", "part": "mesh-weights", "clause": clause}, d)
+        st, got = common.impl_call(lambda: bytes(templ.serialize({"Weights": [list(v) for v in model]})["Weights"]))
+        if st != "ok":
+            fail("serialiser raised", exc=got)
+        elif got != want:
+            fail("serialised weights differ from WeightsBytes(model)", spec=list(want), impl=list(got))
+        st, back = common.impl_call(lambda: norm(templ.deserialize({"Weights": want})["Weights"]))
+        if st != "ok":
+            fail("parser raised", exc=back, bytes=list(want))
+        elif back != norm(model):
+            fail("parse(WeightsBytes(model)) differs from the model", bytes=list(want), model=norm(model), parsed=back)
+        # the same through a whole mesh asset
+        def through_mesh():
+            m = _life_build()
+            m.segments["high_lod"][0]["Weights"] = [list(v) for v in model]
+            w = se.BufferWriter("!")
+            w.write(LLMeshSerializer(), m)
+            m2 = se.BufferReader("!", w.copy_buffer()).read(LLMeshSerializer())
+            return norm(m2.segments["high_lod"][0]["Weights"])
+        st, back = common.impl_call(through_mesh)
+        if st != "ok":
+            fail("mesh codec raised", exc=back)
+        elif back != norm(model):
+            fail("weights change through parse(serialise(mesh))", model=norm(model), parsed=back)
+        if 4 in r["counts"] and 0 in r["counts"]:
+            chk.nontrivial(("weights", tuple(r["counts"]), r["hi"]))
+    agg.report(chk, "B3")
+    chk.cov["traces_validated_against_impl"] += len(rows)
+    chk.sample({"binding": "B3 mesh weights row", "row": rows[199]})
+
+
 def run(chk: Check):
     chk.cov["rule"] = ("transfer: B3 sender pieces at the real chunk size for payload lengths around every boundary; B1 every "
                        "arrival sequence with duplicates/foreign packets of the bounded model (scaled chunk size) delivered as "
@@ -1272,7 +1341,8 @@ def run(chk: Check):
                        "its lookup name. animation/mesh: generated models, layout (sizes, count positions, segment placement) "
                        "recomputed by TLC, round-trip equalities recorded; mesh object life cycle (built/parsed/parsed with raw segments; "
                        "edit, drop parsed form, serialise, re-parse): every edge of the bounded model replayed into real MeshAsset/"
-                       "LLMeshSerializer objects. non-trivial = duplicate/out-of-order arrivals, "
+                       "LLMeshSerializer objects; vertex weights: every sequence of <= 4 vertices with 0/1/3/4 influences, bytes computed by "
+                       "TLC, compared with the real serialiser, parsed back by the real parser and carried through a whole mesh. non-trivial = duplicate/out-of-order arrivals, "
                        "multi-piece walks, rows with at least one optional field, animations with key frames, meshes with "
                        ">= 3 segments.")
     chk.assumptions += [
@@ -1296,6 +1366,7 @@ def run(chk: Check):
     _inventory(chk)
     _assets(chk)
     _mesh_life(chk)
+    _mesh_weights(chk)
     chk.cov["exhaustive"] = True
 
 
